@@ -53,8 +53,13 @@ def gen_spec(rng):
             spec["transforms"] = "near_identity"
         elif r < 0.26 and spec["rank"] == 4:
             spec["transforms"] = _pick(rng, ["in_only", "out_only"])
-        if rng.random() < 0.2:
+        rc = rng.random()
+        if rc < 0.2:
             spec["caps"] = "custom"
+        elif rc < 0.28:
+            # exported before compute_caps(): a legal process tensor that
+            # cannot be contracted yet
+            spec["caps"] = False
         spec["layout"] = _pick(rng, ["c", "c", "f", "view"])
         if rng.random() < 0.04:
             # long process tensors (anything done in chunks or every N steps)
@@ -129,7 +134,8 @@ def gen_case(rng, tier="quick"):
             spec = gen_spec(rng)
             while spec["kind"] != "ptt":
                 spec = gen_spec(rng)
-            ops.append(["ptt_file", spec, rng.randrange(3),
+            # file index 3: a file the library names itself
+            ops.append(["ptt_file", spec, rng.randrange(4),
                         _pick(rng, ["file", "simple"])])
     return {"ops": ops}
 
@@ -309,6 +315,7 @@ def run_case(case, dec):
     import oqupy.process_tensor as ptm
     pool = []
     model_files = {}   # filename -> (ref snapshot, original object, tol)
+    auto_names = []    # files the library named itself (temporary files)
     ref_results = {}   # (serial of original, consumer) -> array
     serials = []       # keeps every original alive: serial = index in here
     violations = []
@@ -421,6 +428,9 @@ def run_case(case, dec):
             log.ev("restart")
         elif kind == "import":
             fname = FILES[op[1]]
+            if auto_names and (op[1] == 2 or fname not in model_files):
+                # one of the files the library named itself, oldest first
+                fname = auto_names[stats["imports"] % len(auto_names)]
             if fname not in model_files:
                 continue
             ref, original, tol = model_files[fname]
@@ -485,10 +495,24 @@ def run_case(case, dec):
             stats["exports"] += 1
             log.ev("reexport", fname)
         elif kind == "ptt_file":
-            spec, fname, ptype = op[1], FILES[op[2]], op[3]
-            release_readers(fname)
+            spec, ptype = op[1], op[3]
+            auto = op[2] >= len(FILES)
             mem = _ptt(spec, None)
-            fpt = _ptt(spec, fname)
+            if auto:
+                # process_tensor_file=True: a temporary file whose name the
+                # library chooses; it stays on disk after close() and can
+                # be imported by that name later
+                fpt = _ptt(spec, True)
+                fname = str(fpt.filename)
+                if fname in model_files:
+                    viol("temporary_name_reused", "ptt_file/auto",
+                         "two file-backed computations in one process were "
+                         "given the same temporary file " + fname)
+                auto_names.append(fname)
+            else:
+                fname = FILES[op[2]]
+                release_readers(fname)
+                fpt = _ptt(spec, fname)
             stats["ptt_file"] += 1
             # two PT-TEMPO runs (file-backed, in memory) can differ by
             # ~100 x epsrel when a singular value sits on the threshold;
